@@ -15,6 +15,7 @@ SEEDS = {
                                  f.blocks["blk"].create_data_array("newmt-extents", "t", data=[2.0]), None)[-1],
     "rich": seeds.build_rich,
     "xmini": seeds.build_xmini,
+    "mini+dims9": lambda f: (seeds.build_mini(f), seeds.add_rank9(f.blocks["blk"]), None)[-1],
     "richnf": lambda f: seeds.build_rich(f, frames=False),
     "block": lambda f: (seeds.build_block(f, "blk"), None)[1],
     "light": lambda f: (seeds.build_sections(f), seeds.build_light_block(f, "blk"), seeds.build_light_block(f, "Ablk"), None)[-1],
